@@ -12,7 +12,7 @@ for d in seeded/${1:-*}/; do
   pf=$V/$d/patch.diff; [ -f $V/$d/patch-rebased.diff ] && pf=$V/$d/patch-rebased.diff
   git -C /repo worktree add -q --detach $wt $base || exit 3
   ( cd $wt && git apply $pf ) 2>/dev/null || { echo "$name $prop PATCH-DOES-NOT-APPLY"; git -C /repo worktree remove --force $wt; continue; }
-  VERIF_REPO=$wt VERIF_EVIDENCE_DIR=/tmp/seedrg-ev-$$ VERIF_REPLAY_DIR=/tmp/seedrg-ev-$$ timeout 3000 /venv/bin/python -B $V/check $by --tier quick > /tmp/seedrg-out-$$ 2>&1
+  VERIF_MAX_REPORTED=1 VERIF_SHRINK_BUDGET=0 VERIF_REPO=$wt VERIF_EVIDENCE_DIR=/tmp/seedrg-ev-$$ VERIF_REPLAY_DIR=/tmp/seedrg-ev-$$ timeout 3000 /venv/bin/python -B $V/check $by --tier quick > /tmp/seedrg-out-$$ 2>&1
   rc=$?
   echo "$name $prop by=$by exit=$rc $(grep -m1 -o 'invariant=[A-Z0-9]*' /tmp/seedrg-out-$$)"
   rm -rf /tmp/seedrg-ev-$$ /tmp/seedrg-out-$$
